@@ -50,7 +50,7 @@ type c11Case struct {
 }
 
 func recC11() *vkit.Recorder {
-	r := vkit.Rec("C11", "exploration", "rapid-generated configurations from the grammar of C16 (every credential a distinctive S3CR3T-n token, some needing YAML quoting) x assignments (jobs with 0-4 targets, jobs with none, targets of jobs that do not exist) x injector options (proxy URL, self-monitoring); oracle: the written file loads with prometheus config.Load and is compared field-wise with the loaded original (job order, one static SD per job matching the assignment one-to-one, http scheme, proxy URL, no basic-auth/TLS, only the label-name repair rule, ingestion-relevant settings kept, no job secret anywhere in the text, global/rules/alerting/remote sections equal including secret values read from the raw YAML); non-trivial = >=2 secrets in different sections, or a job with credentials, or an assignment with an empty / unknown job; distinct = digest of the case")
+	r := vkit.Rec("C11", "exploration", "rapid-generated configurations from the grammar of C16 (every credential a distinctive S3CR3T-n token, some needing YAML quoting) x assignments (jobs with 0-4 targets, jobs with none, targets of jobs that do not exist) x injector options (proxy URL, self-monitoring), delivered through the sidecar HTTP API and the targets manager callbacks (the configuration through POST /api/v1/status/config in half of the cases, before or after the assignment); oracle: the written file loads with prometheus config.Load and is compared field-wise with the loaded original (job order, one static SD per job matching the assignment one-to-one, http scheme, proxy URL, no basic-auth/TLS, only the label-name repair rule, ingestion-relevant settings kept, no job secret anywhere in the text, global/rules/alerting/remote sections equal including secret values read from the raw YAML); non-trivial = >=2 secrets in different sections, or a job with credentials, or an assignment with an empty / unknown job; distinct = digest of the case")
 	r.Assume("'accepted configuration' = accepted by the vendored config.Load; secrets are compared on the loaded structs (Secret is a string type, so the comparison sees the real values)")
 	return r
 }
